@@ -35,6 +35,7 @@ func main() {
 		dump     = flag.String("dump", "", "debug: print the CFG of the named function and exit")
 		noNorm   = flag.Bool("nonorm", false, "debug: analyse the tree as written, without inlining new helpers first")
 		dumpNorm = flag.String("dumpnorm", "", "debug: print the normalised source of the named file (suffix match) and exit")
+		dumpClos = flag.Bool("dumpclosures", false, "maintenance: print the table of local closure variables (frozen in closuretable.go)")
 		dumpPar  = flag.Bool("dumpparams", false, "maintenance: print the parameter-name table of the module's functions (frozen in paramtable.go)")
 	)
 	flag.Parse()
@@ -55,6 +56,15 @@ func main() {
 		return
 	}
 
+	if *dumpClos {
+		abs, _ := filepath.Abs(*repo)
+		p, err := LoadProgram(abs, "", nil)
+		if err != nil {
+			fatal("%v", err)
+		}
+		dumpClosures(p)
+		return
+	}
 	if *dumpPar {
 		abs, _ := filepath.Abs(*repo)
 		p, err := LoadProgram(abs, "", nil)
